@@ -66,6 +66,28 @@ NEEDS = {
  "C15-B": ("amgcl/backend/detail/matrix_ops.hpp", "spmv with beta == 0 computes alpha*A*x + 0*y instead of overwriting y", "a non-finite value left in a persistent work vector by an earlier call (NaN * 0 = NaN)"),
  "C16-A": ("amgcl/solver/skyline_lu.hpp", "first-row update of skyline LU multiplies by D^-1 from the right", "block values (B >= 2) where A(0,0)^-1 and A(0,j) do not commute"),
  "C16-B": ("amgcl/detail/inverse.hpp", "pivot search of the dense inverse skips the last row", "a block whose only non-zero pivot candidate in some column is in the last row (e.g. [[0,1],[1,0]])"),
+
+ # ---- round 3
+ "C04-C": ("amgcl/coarsening/pointwise_aggregates.hpp", "minimum aggregate size test uses a truncating division (count < min_aggregate / block_size)", "near-null-space vectors with nullspace.cols > 1, block_size > 1, cols % block_size != 0 and an aggregate of exactly floor(cols/block_size) nodes: its local QR has fewer rows than columns, P^T P != I"),
+ "C04-D": ("amgcl/coarsening/smoothed_aggregation.hpp", "relax is dropped from omega when the spectral radius is estimated (omega = (4/3)/rho instead of omega *= ...)", "estimate_spectral_radius = true together with relax != 1 (both non-default)"),
+ "C09-C": ("amgcl/relaxation/gauss_seidel.hpp", "the two passes of the level computation of parallel_sweep are fused: anti-dependencies use a level that is not final yet", ">= 4 threads, a structurally non-symmetric entry and the later-swept column stored before an earlier-swept one (backward sweep with sorted rows, forward sweep with unsorted rows)"),
+ "C09-D": ("amgcl/coarsening/smoothed_aggr_emin.hpp", "a 'skip zero' shortcut in the critical-section accumulation also skips the reset of the thread-private column marker", "smoothed_aggr_emin with an exact cancellation in a row of A D^-1 A P: omega, P and R depend on how rows are split over threads"),
+ "C10-C": ("amgcl/coarsening/plain_aggregates.hpp", "the renumbering pass after vanished aggregates only visits the first 'count' points", "an aggregate that loses all its members (non-symmetric strength graph): ids >= count survive, P gets column indices >= ncols, heap overruns in transpose / spgemm / spmv"),
+ "C10-D": ("amgcl/adapter/block_matrix.hpp", "the row iterator of the block adapter no longer zeroes its first block value", "adapter::block_matrix (make_block_solver, as_block, as_scalar) on a matrix whose first block of a block row is structurally incomplete: missing entries come from uninitialised stack memory"),
+ "C11-C": ("amgcl/mpi/distributed_matrix.hpp", "finish_exchange copies the received ghost values only when the rank also SENDS something", "a rank that receives ghost values but sends none (structurally non-symmetric rank coupling: upper bidiagonal / arrow matrices, rectangular operators)"),
+ "C11-D": ("amgcl/mpi/distributed_matrix.hpp", "remote_rows shifts local column numbers with the column offset of the LEFT factor's pattern", "product A*B with B rectangular or B's column partition different from its row partition, on a rank that ships rows with diagonal-block entries"),
+ "C12-C": ("amgcl/mpi/coarsening/smoothed_aggregation.hpp", "weak REMOTE connections are no longer added to the filtered diagonal", "distributed smoothed aggregation, >= 2 ranks, a weak connection whose column lives on another rank (anisotropic problems): row sums of P next to a rank boundary != 1, hierarchy depends on the partition"),
+ "C12-D": ("amgcl/mpi/distributed_matrix.hpp", "transpose(): the row sizes of the transposed remote part are assigned instead of accumulated", ">= 3 ranks and a column referenced from two different remote ranks (an aggregate with members on three ranks: a very thin slice in the partition): R != P^T"),
+ "C15-C": ("amgcl/solver/bicgstab.hpp", "the first-iteration copy p = r is folded into the general update with beta = 0: (-0)*v reads the work vector of the previous call", "the same object called at least twice and an earlier call that left a non-finite value in v: every later call returns NaN"),
+ "C15-D": ("amgcl/amg.hpp", "the coarse-level solution vector is no longer cleared when the next level is the coarsest", "a smoothed coarsest level (direct_coarse=false, or an empty next coarsening step) and a second apply() on the same object"),
+ "C17-C": ("amgcl/backend/builtin.hpp", "the move constructor of crs claims ownership (own_data = true) of the moved-from matrix' arrays", "zero_copy()/zero_copy_direct() wrapping user arrays, then move-construction of a crs from the result: the user arrays are delete[]d on destruction"),
+ "C17-D": ("amgcl/reorder/cuthill_mckee.hpp", "the search for the start node of a new connected component begins at i = next instead of i = 0", "a disconnected graph whose still unnumbered nodes all have indices below the count of nodes numbered so far (decoupled Dirichlet rows at low indices): the ordering is no permutation"),
+ "C18-C": ("amgcl/preconditioner/cpr.hpp", "the thread-local diagonal-block buffer of first_scalar_pass is no longer zeroed per block row", "scalar input and a diagonal block with a structurally missing entry in a block row other than the first one handled by its thread"),
+ "C18-D": ("amgcl/deflated_solver.hpp", "project() applies E^-T instead of E^-1 (index order of the small dense solve)", "a non-symmetric matrix and at least two deflation vectors"),
+ "C19-C": ("amgcl/io/mm.hpp", "the range check of a coordinate entry compares the column index with the ROW count", "rectangular coordinate files: wide matrices are rejected, tall files may return column indices beyond the column count"),
+ "C19-D": ("amgcl/io/binary.hpp", "the monotonicity check of the row pointers read from the file skips the last pair of the requested range", "a damaged file whose pointer of the last requested row exceeds the range's end pointer: decreasing ptr, sort_row out of bounds"),
+ "C20-C": ("lib/amgcl.cpp", "amgcl_params_setf stores the float through a fixed 6-decimal string", "float parameters below 5e-7 (tol = 1e-8f becomes 0) or non-dyadic values (0.72f changes in the last bits)"),
+ "C20-D": ("lib/amgcl.cpp", "amgcl_solver_solve_mtx_f copies the 1-based column/value arrays up front and reads one element past them", "1-based entry point with a replacement matrix; results are bitwise unchanged, only the out-of-bounds read of col[nnz] is observable"),
 }
 def read(p):
     try: return open(p).read()
